@@ -424,7 +424,7 @@ def write_trace(r, length: int) -> List[dict]:
                 dom = {"text": ["p", "q", "", "a"], "number": ["1.5", "-0:30", "7"], "switch": ["On", "Off"], "blob": ["B1", "B2"]}[k["kind"]]
                 op = {"o": "edit", "dev": k["dev"], "vec": k["vec"], "el": name, "x": r.choice(dom + ([NONE] if r.random() < 0.15 else []))}
             else:
-                k = r.choice(writable) if r.random() < 0.9 else {"dev": "C", "vec": "X"}
+                k = r.choice(writable) if r.random() < 0.9 else {"dev": "Z", "vec": "X"}      # a device the client has never heard of
                 op = {"o": "submit", "dev": k["dev"], "vec": k["vec"]}
             out.append(w.apply(op))
         return out
